@@ -397,6 +397,8 @@ pub enum Op {
     MaxDatagrams(usize),
     /// Extra settle round: poll_transmit, poll_timeout, poll_endpoint_events, poll
     SpuriousSettle(usize),
+    /// Mark every datagram emitted from now on (that carries ECT) as CE
+    CeFrom(u64),
 }
 
 pub fn apply_op(p: &mut StdPair, op: &Op) {
@@ -423,6 +425,13 @@ pub fn apply_op(p: &mut StdPair, op: &Op) {
         }
         Op::MaxDatagrams(n) => {
             p.w.max_datagrams = *n;
+            return;
+        }
+        Op::CeFrom(count) => {
+            let from = p.w.emitted;
+            for i in from..from + *count {
+                p.w.ce_marks.insert(i);
+            }
             return;
         }
         _ => {}
@@ -527,6 +536,7 @@ pub fn ecase_pair(base: Instant, c: &ECase, devs: &crate::explore::Devs, alts: &
         |w| {
             w.fates = crate::explore::fates_of(devs, alts);
             w.keep_data = keep_data;
+            w.probe_pre = keep_data;
         },
     );
     let done = drive(&mut p, &c.script, c.max_steps, c.horizon);
